@@ -1,4 +1,4 @@
-import Firefly.Proof.PmmHistory
+import Firefly.Props.C03
 /-!
 # C01 — Physical frames are handed out exclusively and only from free RAM
 
@@ -54,5 +54,26 @@ theorem conservation (bm : Bitmap) (hI : Inv bm) (ops : List Op) (hc : Contract 
     r.2.1.Nodup ∧ (∀ f, isFree bm f ↔ (isFree r.1 f ∨ f ∈ r.2.1)) ∧ (∀ f ∈ r.2.1, ¬ isFree r.1 f) := by
   have h := (run_ok ops (sim_init hI) hc).2
   exact ⟨h.nodup, h.split, h.disj⟩
+
+/-- **handed_out_only_from_usable** — the property end to end: initialise the allocator from any
+sorted memory map and kernel placement after `k` early allocations; then for every history of
+allocate/free calls every frame handed out lies wholly inside a region reported available, is not
+part of the kernel image, was not consumed by the early-boot allocator, and is not currently held
+by another caller. -/
+theorem handed_out_only_from_usable (m : List Region) (ksA keA : Nat) (hs : SortedMap m)
+    (hp : KernelPlaced m ksA keA) (hsm : nSum (poolsOf m) < 4294967296) (k : Nat) (b : Boot)
+    (fs0 : List Nat) (hrun : bootRun m k (bootInit ksA keA) = some (b, fs0))
+    (hok : (bitmapInit m b true none).outcome = .ok) (ops : List Op)
+    (hc : Contract (bitmapInit m b true none).bm [] ops) :
+    ∃ fs, bootRun m (k + requiredBytes (poolsOf m) / Firefly.Gen.Pmm.pageSize) (bootInit ksA keA)
+            = some ((bitmapInit m b true none).boot, fs) ∧
+      TraceOk (Firefly.C03.Usable m ksA keA fs) (runOps (bitmapInit m b true none).bm [] ops).2.2 := by
+  obtain ⟨fs, h1, h2, h3⟩ := (Firefly.C03.init_total_and_exact m ksA keA hs hp hsm k b fs0 hrun).2 hok
+  refine ⟨fs, h1, ?_⟩
+  have := exclusive _ h2 ops hc
+  have e : isFree (bitmapInit m b true none).bm = Firefly.C03.Usable m ksA keA fs :=
+    funext fun g => propext (h3 g)
+  rw [e] at this
+  exact this
 
 end Firefly.C01
